@@ -188,3 +188,17 @@ Theorem C19_rtu_crc_from_source : forall buf, bytes_ok buf = true ->
   run go_modbus_RtuCrc [map Z.of_N buf] [] = Some (Z.of_N (rtu_crc buf)).
 Proof. exact go_RtuCrc_is_model_bytes. Qed.
 Print Assumptions C19_rtu_crc_from_source.
+
+(* ---------- a register map that grows while the server is serving (Regs.AddReg between requests) ----------
+   adding a register changes nothing that the map already held, for registers and for coils; a new register reads 0
+   (Modbus/GrowProofs.v).  The sessions of the check add registers between calls (call 7) and the theorems above
+   then apply to the grown map. *)
+From Verif Require Import Modbus.C19Check Modbus.GrowProofs.
+Theorem C19_growing_map_keeps_values : forall rs a x,
+  read_reg (add_reg rs a) x =
+  match read_reg rs x with
+  | Some v => Some v
+  | None => if (a =? u16 x)%N then Some 0%N else None
+  end.
+Proof. exact add_reg_reads. Qed.
+Print Assumptions C19_growing_map_keeps_values.
